@@ -131,14 +131,110 @@ except Exception as e:  # fail closed in the harness
     EXTRACT_ERROR = "%s: %s" % (type(e).__name__, e)
 
 
+def source_constants():
+    """The constants the property names, read from the SOURCE (ast), not from a run:
+       * the bucket levels of value_repetitions.json: an int sequence literal / comprehension inside the statement that writes
+         the file, or a module-level constant used by a module-level helper that statement calls;
+       * p, m, warmup_size, width of HyperLogLogWCache: the `self.<attr> = <expr>` assignments of __init__, evaluated in order."""
+    out = {"edges": None, "edges_note": None, "sketch": None, "sketch_note": None}
+    try:
+        import outrank.task_ranking as tr_mod
+        tree = ast.parse(open(tr_mod.__file__, encoding="utf8").read())
+
+        def as_levels(node):
+            names = {n.id for n in ast.walk(node) if isinstance(n, ast.Name)}
+            if not names <= {"range", "x", "i", "k", "level", "e", "exp", "power"}:
+                return None
+            try:
+                val = eval(compile(ast.Expression(node), "<levels>", "eval"), {"range": range, "__builtins__": {}})
+            except Exception:
+                return None
+            if isinstance(val, (list, tuple)) and len(val) >= 3 and all(isinstance(x, int) and not isinstance(x, bool) for x in val) \
+                    and list(val) == sorted(set(val)) and val[0] == 0:
+                return list(val)
+            return None
+
+        def levels_in(nodes):
+            best = None
+            for top in nodes:
+                for node in ast.walk(top):
+                    if isinstance(node, (ast.BinOp, ast.List, ast.Tuple, ast.ListComp)):
+                        v = as_levels(node)
+                        if v is not None and (best is None or len(v) > len(best)):
+                            best = v
+            return best
+        hist_stmt = None
+        for node in ast.walk(tree):
+            if isinstance(node, (ast.With, ast.Expr, ast.Assign)) and "value_repetitions.json" in ast.unparse(node):
+                hist_stmt = node
+                break
+        if hist_stmt is None:
+            out["edges_note"] = "statement writing value_repetitions.json not found"
+        else:
+            lv = levels_in([hist_stmt])
+            if lv is None:
+                called = {n.func.id for n in ast.walk(hist_stmt) if isinstance(n, ast.Call) and isinstance(n.func, ast.Name)}
+                funcs = [f for f in tree.body if isinstance(f, ast.FunctionDef) and f.name in called]
+                lv = levels_in(funcs)
+                if lv is None:
+                    used = {n.id for f in funcs for n in ast.walk(f) if isinstance(n, ast.Name)}
+                    consts = [a.value for a in tree.body if isinstance(a, ast.Assign)
+                              and any(isinstance(tg, ast.Name) and tg.id in used for tg in a.targets)]
+                    lv = levels_in(consts)
+            out["edges"] = lv
+            if lv is None:
+                out["edges_note"] = "no integer level sequence found in / behind the statement writing value_repetitions.json"
+    except Exception as e:
+        out["edges_note"] = "%s: %s" % (type(e).__name__, e)
+    try:
+        import outrank.algorithms.sketches.counting_ultiloglog as hll_mod
+        tree = ast.parse(open(hll_mod.__file__, encoding="utf8").read())
+        init = None
+        for node in ast.walk(tree):
+            if isinstance(node, ast.ClassDef) and node.name == "HyperLogLogWCache":
+                for f in node.body:
+                    if isinstance(f, ast.FunctionDef) and f.name == "__init__":
+                        init = f
+        if init is None:
+            out["sketch_note"] = "HyperLogLogWCache.__init__ not found"
+        else:
+            slf = types.SimpleNamespace()
+            ns = {"self": slf, "np": np, "int": int, "set": set}
+            for st in init.body:
+                if isinstance(st, ast.Assign) and all(isinstance(tg, ast.Attribute) and isinstance(tg.value, ast.Name)
+                                                      and tg.value.id == "self" for tg in st.targets):
+                    try:
+                        exec(compile(ast.Module(body=[st], type_ignores=[]), "<hll-init>", "exec"), ns)
+                    except Exception:
+                        pass
+            got = {k: getattr(slf, k, None) for k in ("p", "m", "warmup_size", "width")}
+            if all(isinstance(v, int) for v in got.values()):
+                out["sketch"] = got
+            else:
+                out["sketch_note"] = "could not evaluate p/m/warmup_size/width from __init__: %r" % (got,)
+    except Exception as e:
+        out["sketch_note"] = "%s: %s" % (type(e).__name__, e)
+    try:
+        inst = cr.HyperLogLog(cr.HYPERLL_ERROR_BOUND)
+        out["sketch_instance"] = {k: int(getattr(inst, k)) for k in ("p", "m", "warmup_size", "width")}
+    except Exception as e:
+        out["sketch_instance"] = None
+    return out
+
+
 def enc(v):
-    """a dictionary key / cell as JSON: str -> ["s", v], float nan -> ["nan"], None -> ["none"], anything else -> ["other", repr]"""
+    """a dictionary key / cell as JSON: str -> ["s", v], float nan -> ["nan"], None -> ["none"], number -> ["num", str, truth],
+    anything else -> ["other", repr]"""
     if isinstance(v, str):
         return ["s", v]
     if v is None:
         return ["none"]
-    if isinstance(v, float) and v != v:
+    if isinstance(v, (float, np.floating)) and v != v:
         return ["nan"]
+    if isinstance(v, (bool, np.bool_)):
+        return ["other", repr(v)]
+    if isinstance(v, (int, float, np.integer, np.floating)):
+        return ["num", str(v), bool(v)]         # a numeric cell: its str() and its truth value
     return ["other", repr(v)]
 
 
@@ -175,6 +271,11 @@ def run_history(case, sizes):
         for c in cols:
             h = cr.HyperLogLog(cr.HYPERLL_ERROR_BOUND)
             h.warmup_size = int(case["smallcap"])
+            if case.get("sketch_p") is not None:
+                # a small register file as well (as C14's harness does), so that the converted phase is cheap and sensitive
+                h.p = int(case["sketch_p"])
+                h.m = 1 << h.p
+                h.width = 64 - h.p
             cr.GLOBAL_CARDINALITY_STORAGE[c] = h
     local_coverage_object = defaultdict(list)
     pos = 0
@@ -291,7 +392,9 @@ def run_history(case, sizes):
     # --- raw state
     out["coverage"] = {c: [float(x) for x in local_coverage_object[c]] for c in cols}
     out["sketch"] = {c: {"len": int(len(cardinality_object[c])), "cold": bool(getattr(cardinality_object[c], "hll_flag", False)),
-                         "warmup_size": int(getattr(cardinality_object[c], "warmup_size", 2 ** 18))} for c in cols}
+                         "warmup_size": int(getattr(cardinality_object[c], "warmup_size", 2 ** 18)),
+                         "p": int(getattr(cardinality_object[c], "p", 19)),
+                         "width": int(getattr(cardinality_object[c], "width", 45))} for c in cols}
     try:
         out["counter"] = {c: [[enc(k), int(v)] for k, v in item_counts[c].default_counter.items()] for c in cols}
     except Exception:
@@ -339,12 +442,19 @@ def run_scale(sc):
 results = []
 if True:
     for case in payload["cases"]:
-        vals = sorted({v for r in case["rows"] for v in r if v} | {"nan", "None"})
+        vals = sorted({str(v) for r in case["rows"] for v in r if v is not None and str(v) != ""} | {"nan", "None"})
         try:
-            hashes = [[v, int((getattr(cr, 'internal_hash', None) or cu.internal_hash)(str(v)), 16)] for v in vals]
+            ih = getattr(cr, 'internal_hash', None) or cu.internal_hash
+            digests = [ih(str(v)) for v in vals]
+            hashes = [[v, int(d, 16)] for v, d in zip(vals, digests)]
+            # the sketch's own hash of a digest: xxh32(seed = p) of its utf-8 bytes (HyperLogLogWCache._hasher_update)
+            import xxhash as _xx
+            sp = int(case.get("sketch_p") or 19)
+            h2 = [[int(d, 16), _xx.xxh32(d.encode("utf-8"), seed=sp).intdigest()] for d in digests]
             herr = None
         except Exception as e:
             hashes = []
+            h2 = []
             herr = "%s: %s" % (type(e).__name__, e)
         hs = []
         for sizes in case["splits"]:
@@ -355,7 +465,7 @@ if True:
                 import traceback
                 o = {"ok": False, "error": "%s: %s" % (type(e).__name__, e), "trace": traceback.format_exc()[-1500:]}
             hs.append(o)
-        results.append({"hashes": hashes, "hash_error": herr, "histories": hs})
+        results.append({"hashes": hashes, "h2": h2, "hash_error": herr, "histories": hs})
 scale_results = []
 for sc in payload.get("scale", []):
     try:
@@ -364,4 +474,5 @@ for sc in payload.get("scale", []):
         scale_results.append({"ok": False, "error": "%s: %s" % (type(e).__name__, e)})
 reset_globals()
 shutil.rmtree(OUT, ignore_errors=True)
-print("@@RESULT " + json.dumps({"extract_error": EXTRACT_ERROR, "results": results, "scale": scale_results}))
+print("@@RESULT " + json.dumps({"extract_error": EXTRACT_ERROR, "results": results, "scale": scale_results,
+                                "constants": source_constants()}))
